@@ -21,6 +21,7 @@ https://tools.ietf.org/html/rfc5054. See HomeKit spec page 36 for adjustments im
 from __future__ import annotations
 
 import hashlib
+import hmac
 import math
 import os
 from collections.abc import Iterable
@@ -216,7 +217,14 @@ class SrpClient(Srp):
 
     def verify_servers_proof_bytes(self, M_b: bytes) -> bool:
         """Verify the proof/M value."""
-        return self.verify_servers_proof(int.from_bytes(M_b, "big"))
+        # Compare the bytes, not the numbers: a proof with leading zero bytes
+        # added or removed is a different (malformed) proof.
+        expected = self.digest(
+            self.A_b,
+            self.get_proof_bytes(),
+            self.get_session_key_bytes(),
+        )
+        return hmac.compare_digest(bytes(expected), bytes(M_b))
 
     def verify_servers_proof(self, M: int) -> bool:
         return (
